@@ -474,6 +474,8 @@ def call_ext(interp, ext, node, args, kwargs, st):
             tags = frozenset()
             if name == "squeeze":
                 interp.emit(st, "squeeze", node, target=a0, axis=_arg(args, kwargs, 1, "axis"))
+            if name == "diag":
+                interp.emit(st, "diag", node, arg=a0)
             if name == "roll":
                 sh = _arg(args, kwargs, 1, "shift")
                 tags = frozenset([("roll", sh.const if sh is not None and sh.has_const() else None)])
@@ -516,7 +518,11 @@ def call_ext(interp, ext, node, args, kwargs, st):
             kind = "float" if (ax is None and name != "amin") else "arr"
             if ax is not None:
                 kind = "arr"
-            return fresh(dim, kind=kind, tags=frozenset([("reduced", name)]))
+            sym = None
+            if name == "sum" and ax is None and a0.sym is not None and a0.sym.is_monomial() and len(a0.sym.atoms()) == 1 \
+                    and next(iter(a0.sym.atoms())).startswith("norm<") and "norm" in a0.tags:
+                sym = Poly.atom("sum<" + next(iter(a0.sym.atoms())) + ">")
+            return fresh(dim, kind=kind, tags=frozenset([("reduced", name)]), sym=sym)
         if name in DIMLESS_ARG:
             if a0 is not None:
                 d = dim_collapse(a0.dim)
@@ -674,7 +680,7 @@ def call_ext(interp, ext, node, args, kwargs, st):
             interp.emit(st, "reduce", node, fn="norm", target=a0, axis=ax, method=False)
             d = dim_contract(a0.dim)
             sym = None
-            if a0.deps and ax is None:
+            if a0.deps:
                 sym = _opaque("norm", a0)
             return fresh(d, kind="float" if ax is None else "arr", tags=frozenset(["norm"]), sym=sym)
         if name == "det":
